@@ -396,7 +396,12 @@ func (g *gctx) genStmt(d int, indent string) *gnode {
 		g.use("closure-escape")
 		n := g.r.Intn(1000)
 		mk, c := fmt.Sprintf("mk%d", n), fmt.Sprintf("cl%d", n)
-		switch g.r.Intn(3) {
+		switch g.r.Intn(4) {
+		case 3:
+			// a closure made inside a call reads a variable two scopes up, before and after that variable is reassigned
+			rate := fmt.Sprintf("rate%d", n)
+			return gn(rate, " := ", pos("assigned", g.genI(1)), "\n", mk, " := {|| w := 1; {|p| p * ", rate, " + w}}\n", c, " := ", mk, "()\n",
+				c, "(2).p\n", c, "(3).p\n", rate, " := ", pos("assigned", g.genI(1)), "\n", c, "(2).p\n", "{|| ", c, "(4)}().p\n")
 		case 0:
 			return gn(mk, " := {|n, step: 1| w := n * 2; {get: {|| n}, nxt: {|| n + step}, dbl: {|| w}}}\n",
 				c, " := ", mk, "(", pos("argument", g.genI(1)), ", step: ", pos("kwarg", g.genI(1)), ")\n",
